@@ -38,6 +38,8 @@ SHAPES = {
     "stream-default": ops.op("get", "/sd", [], None, {"default": "event-stream"}),   # no explicit 2xx: the streamed payload sits under `default`
     # an operation whose NAME is a type name the generated code uses in annotations (date), next to operations with date parameters
     "named-date": dict(ops.op("get", "/dt", [P("on", "query", False, "date")], None, {"200": "json-model"}), op_id_fixed="date"),
+    # JSON answer declared without a schema, on a path whose last resource is named like a component schema (Item)
+    "schemaless-item": ops.op("get", "/items/{itemId}", [P("itemId", "path", True, "integer")], None, {"200": "json-no-schema"}),
     "options": ops.op("options", "/p", [], None, {"204": "none"}),   # CORS-preflight style operation exported by gateways
     "head+trace": ops.op("head", "/ht/{id}", [P("id", "path", True, "integer")], None, {"200": "none"}),
     "bulk": ops.op("post", "/bulk", [], {"kind": "json-array-inline", "required": True}, {"204": "none"}),
